@@ -305,6 +305,11 @@ func (s *Server) deliver(rsps jmessages, ch sender, elapsed time.Duration) error
 	defer verifPoint("srv.deliver.afterUnlock")
 	s.mu.Lock()
 	defer s.mu.Unlock()
+	if ch == nil {
+		// The batch was dequeued after the server stopped (a notification
+		// retained at shutdown); there is no channel to report errors on.
+		return nil
+	}
 
 	// Cancel the contexts of all the inflight requests that were executed.
 	// The extra check is necessary, to prevent a duplicate request from
